@@ -36,10 +36,28 @@
   falsifies C03_Beap_reevaluate_fixpoint / C03_Beap_minCost on the demo grammar below: see
   `demo_minCost` (the model's values) — the patched implementation leaves `m(X,Z)` at cost 19/4
   instead of 7/2 and is caught by the correspondence on the queues and by the order oracle.
-  Compared on every generated case, not proved: the order of the yielded sequence itself and prefix
-  completeness (exact Fraction cost of every yielded program, brute-force expansion below a cost bound).
+  THE ORDER OF THE YIELDED SEQUENCE (grammar flagged recursive, every non-terminal derives a program —
+  `Productive`, so that no placeholder is left after the prologue):
+    * C03_Beap_cost_inv        — COST SOUNDNESS as a state invariant of the query phase (`CInv`), for every
+        history of next / merge_program calls after the first next: every queue element of rule P and
+        combination c carries the cost  cost(P) + Σ_i _cost_lists[arg_i][c_i], every program of _bank[S][i] has
+        cost _cost_lists[S][i], cost lists are only extended at their end;
+    * C03_Beap_yield_cost      — the program yielded while the generator's counter is n has cost
+        _cost_lists[start][n], and n never decreases;
+    * C03_Beap_yield_index     — the programs produced by `take k` from the fresh generator are yielded at a
+        NON-DECREASING sequence of indices of _cost_lists[start];
+    * C03_Beap_order_partial   — hence the yielded costs are NON-DECREASING whenever the final
+        _cost_lists[start] is non-decreasing: `sortedB`, a Boolean check on the final state that the driver
+        evaluates on every generated case (certified checking).
+      FULL statement (not proved): without the hypothesis `sortedB …`.  What is missing is the invariant
+      "every queue element is at least as expensive as every entry of its cost list", which needs that a
+      query is never re-entered for the same non-terminal at the same cost (true when every rule cost
+      is > 0; false for zero-cost cycles, where query() does not terminate either).
+  Compared on every generated case, not proved: prefix completeness and the sortedness of the cost
+  lists (exact Fraction cost of every yielded program, brute-force expansion below a cost bound).
 -/
 import PS.Proofs.Enum.BeapHeadMin
+import PS.Proofs.Enum.BeapOrderRun
 import PS.Props.C02_Beap
 namespace PS.C03Beap
 open PS PS.G PS.Beap PS.Heapq
@@ -89,6 +107,96 @@ theorem C03_Beap_reevaluate_fixpoint (E : Env S) (hrec : E.recursive = true) (fu
   reevaluate_stable E hrec fuel s s' h nt el hel
 end
 
+/-! ### cost soundness and the order of the yielded sequence -/
+section
+variable {S : Type} [DecidableEq S]
+
+/-- the generator objects reachable after the first `next`, by any history of `next` / `merge_program` -/
+inductive ReachS (E : Env S) (fuel : Nat) : Gen S → Prop
+  | first {r : Gen S × Option Prog} : Beap.next E fuel (Gen.new E.G) = some r → ReachS E fuel r.1
+  | next {g : Gen S} {r : Gen S × Option Prog} : ReachS E fuel g → Beap.next E fuel g = some r → ReachS E fuel r.1
+  | merge {g : Gen S} (other : Prog) (ok : NT S Unit → Bool) : ReachS E fuel g → ReachS E fuel (Beap.merge g other ok)
+
+theorem gc_new (E : Env S) : GC E (Gen.new E.G) := by
+  refine ⟨⟨fun nt c hc => ?_, fun nt el he => ?_, fun nt ci p hp => ?_⟩, fun fr he => by cases he⟩
+  · have : (St.empty E.G).clOf nt = [] := lookup_map_nil E.G.rules nt
+    rw [show (Gen.new E.G).st = St.empty E.G from rfl, this] at hc; cases hc
+  · have : (St.empty E.G).queueOf nt = [] := lookup_map_nil E.G.rules nt
+    rw [show (Gen.new E.G).st = St.empty E.G from rfl, this] at he; cases he
+  · have : (St.empty E.G).bankOf nt = [] := lookup_map_nil E.G.rules nt
+    simp [show (Gen.new E.G).st = St.empty E.G from rfl, St.bankAt, this] at hp
+
+theorem reachS_started (E : Env S) (fuel : Nat) (g : Gen S) (h : ReachS E fuel g) : g.started = true := by
+  induction h with
+  | @first r hn =>
+    unfold Beap.next at hn
+    simp only [Gen.new, Bool.false_eq_true, if_false] at hn
+    split at hn
+    · cases hn
+    · exact next_cost.nextLoop_started E fuel _ _ _ _ _ _ hn
+  | @next g r _ hn ih =>
+    unfold Beap.next at hn
+    split at hn
+    · cases hn; exact ih
+    · exact next_cost.nextLoop_started E fuel _ _ _ _ _ _ hn
+  | @merge g other ok _ ih => exact ih
+
+/-- **COST SOUNDNESS as a state invariant**, for every history after the first `next` -/
+theorem C03_Beap_cost_inv (E : Env S) (hnd : RowsNodup E.G) (hrec : E.recursive = true) (hprod : Productive E) (fuel : Nat)
+    (g : Gen S) (h : ReachS E fuel g) : GC E g := by
+  induction h with
+  | @first r hn => exact (next_cost E hnd hrec hprod fuel _ r (gc_new E) (fun _ => ⟨rfl, rfl⟩) hn).1
+  | @next g r hr hn ih =>
+    have hst := reachS_started E fuel g hr
+    exact (next_cost E hnd hrec hprod fuel g r ih (fun hs => by rw [hst] at hs; cases hs) hn).1
+  | @merge g other ok _ ih => exact merge_cost E g other ok ih
+
+/-- every program of `_bank[S][i]` has cost `_cost_lists[S][i]`; every queue element is priced by its combination -/
+theorem C03_Beap_bank_cost (E : Env S) (hnd : RowsNodup E.G) (hrec : E.recursive = true) (hprod : Productive E) (fuel : Nat)
+    (g : Gen S) (h : ReachS E fuel g) :
+    (∀ nt ci p, p ∈ g.st.bankAt nt ci → ∃ c, (g.st.clOf nt)[ci]? = some c ∧ c.inf = 0 ∧ costOf E p nt = some c.fin) ∧
+    (∀ nt el, el ∈ g.st.queueOf nt → ∃ rl w k, E.G.rule? nt el.P = some rl ∧ ruleW E nt el.P = some w ∧
+      combCost g.st rl.1 el.comb = some k ∧ el.cost = Cost.ofRat (w + k)) := by
+  have hc := (C03_Beap_cost_inv E hnd hrec hprod fuel g h).1
+  refine ⟨fun nt ci p hp => ?_, hc.queue⟩
+  obtain ⟨c, h1, h2⟩ := hc.bank nt ci p hp
+  exact ⟨c, h1, hc.fin nt c (List.mem_of_getElem? h1), h2⟩
+
+/-- the program yielded while the generator's counter is `n` has cost `_cost_lists[start][n]`; `n` never decreases -/
+theorem C03_Beap_yield_cost (E : Env S) (hnd : RowsNodup E.G) (hrec : E.recursive = true) (hprod : Productive E) (fuel : Nat)
+    (g g' : Gen S) (p : Prog) (h : ReachS E fuel g) (hn : Beap.next E fuel g = some (g', some p)) :
+    g.n ≤ g'.n ∧ ∃ c, (g'.st.clOf E.G.start)[g'.n]? = some c ∧ costOf E p E.G.start = some c.fin := by
+  have hst := reachS_started E fuel g h
+  obtain ⟨_, _, q3, q4⟩ := next_cost E hnd hrec hprod fuel g _ (C03_Beap_cost_inv E hnd hrec hprod fuel g h)
+    (fun hs => by rw [hst] at hs; cases hs) hn
+  exact ⟨q3 hst, (q4 p rfl).2⟩
+
+/-- the programs produced by `take k` from the fresh generator are yielded at non-decreasing indices of
+    the (final) cost list of the start symbol -/
+theorem C03_Beap_yield_index (E : Env S) (hnd : RowsNodup E.G) (hrec : E.recursive = true) (hprod : Productive E) (fuel k : Nat)
+    (g : Gen S) (ys : List Prog) (fin : Bool) (h : take E fuel k (Gen.new E.G) [] = some (g, ys, fin)) :
+    ∃ idx : List Nat, idx.Pairwise (· ≤ ·) ∧
+      All2 (fun p i => ∃ c, (g.st.clOf E.G.start)[i]? = some c ∧ costOf E p E.G.start = some c.fin) ys idx := by
+  obtain ⟨idx, h1, h2, _⟩ := take_index E hnd hrec hprod fuel k (Gen.new E.G) [] [] _ (gc_new E) (fun _ => ⟨rfl, rfl, rfl⟩)
+    All2.nil List.Pairwise.nil (fun i hi => by cases hi) h
+  exact ⟨idx, h2, h1⟩
+
+/-- **ORDER, relative to a Boolean check on the final state**: if the final `_cost_lists[start]` is
+    non-decreasing (`sortedB`), the costs of the programs produced by `take k` are non-decreasing, and every
+    one of them has a cost (is derivable) -/
+theorem C03_Beap_order_partial (E : Env S) (hnd : RowsNodup E.G) (hrec : E.recursive = true) (hprod : Productive E) (fuel k : Nat)
+    (g : Gen S) (ys : List Prog) (fin : Bool) (h : take E fuel k (Gen.new E.G) [] = some (g, ys, fin))
+    (hsorted : sortedB (g.st.clOf E.G.start) = true) :
+    ys.Pairwise (fun p q => ∀ a b, costOf E p E.G.start = some a → costOf E q E.G.start = some b → a ≤ b) ∧
+    ∀ p ∈ ys, ∃ a, costOf E p E.G.start = some a := by
+  obtain ⟨idx, h1, h2, _⟩ := take_index E hnd hrec hprod fuel k (Gen.new E.G) [] [] _ (gc_new E) (fun _ => ⟨rfl, rfl, rfl⟩)
+    All2.nil List.Pairwise.nil (fun i hi => by cases hi) h
+  refine ⟨sorted_of_index E g.st (clSorted_of_check E g.st hsorted) ys idx h1 h2, fun p hp => ?_⟩
+  obtain ⟨i, _, c, _, hc⟩ := sorted_of_index.mem_all2 h1 p hp
+  exact ⟨c.fin, hc⟩
+
+end
+
 /-- `HeapElement.__lt__` is a strict weak order -/
 theorem C03_Beap_lt_weak_order : WeakOrder ltE := ltE_weak
 
@@ -129,5 +237,37 @@ open PS.C02Beap in
 example : (initNT demoE 100 (St.empty demoG) ntX).map (fun s => (s.clOf ntY, (s.queueOf ntX).map (fun e => e.cost.inf))) =
     some ([Cost.ofRat 5], [0, 1, 0]) := by
   decide +kernel
+
+open PS.C02Beap in
+/-- every non-terminal of the demo grammar derives a program (`a`, `b`, `c`) -/
+theorem demo_productive : Productive demoE := by
+  intro nt _
+  by_cases h1 : nt = ntX
+  · subst h1; exact ⟨.node (sy 2) [], 1, by decide +kernel⟩
+  · by_cases h2 : nt = ntY
+    · subst h2; exact ⟨.node (sy 4) [], 6, by decide +kernel⟩
+    · by_cases h3 : nt = ntZ
+      · subst h3; exact ⟨.node (sy 6) [], 4, by decide +kernel⟩
+      · rename_i h
+        simp [demoE, demoG, AList.lookup, Ne.symm h1, Ne.symm h2, Ne.symm h3] at h
+
+open PS.C02Beap in
+/-- non-vacuity of C03_Beap_order_partial: on the demo grammar the hypotheses hold for the first 12 programs
+    (the Boolean check on the final cost list of the start symbol evaluates to true), and the costs are
+    1, 5, 7, 8, 8, 9, 10, … -/
+example : (take demoE 300 12 (Gen.new demoG) []).map (fun r => (sortedB (r.1.st.clOf demoG.start), r.2.1.map (fun p => costOf demoE p demoG.start))) =
+    some (true, [some 1, some 5, some 7, some 8, some 8, some 9, some 10, some 11, some 12, some 12, some 12, some 12]) := by
+  decide +kernel
+
+open PS.C02Beap in
+example : ∃ g ys fin, take demoE 300 12 (Gen.new demoG) [] = some (g, ys, fin) ∧ sortedB (g.st.clOf demoG.start) = true ∧ ys.length = 12 := by
+  have h : (take demoE 300 12 (Gen.new demoG) []).map (fun r => (sortedB (r.1.st.clOf demoG.start), r.2.1.length)) = some (true, 12) := by
+    decide +kernel
+  cases hp : take demoE 300 12 (Gen.new demoG) [] with
+  | none => simp [hp] at h
+  | some r =>
+    obtain ⟨g, ys, fin⟩ := r
+    simp only [hp, Option.map_some, Option.some.injEq, Prod.mk.injEq] at h
+    exact ⟨g, ys, fin, rfl, h.1, h.2⟩
 
 end PS.C03Beap
